@@ -162,9 +162,18 @@ class Rewriter:
                 self.generic_visit(n)
                 if me.kind != 'kwargs' or not n.args or any(isinstance(a, ast.Starred) for a in n.args):
                     return n
-                if not (isinstance(n.func, ast.Attribute) and isinstance(n.func.value, ast.Name) and n.func.value.id in ('self', 'spawn', 'expecter', 'child')):
+                if isinstance(n.func, ast.Attribute):
+                    # receivers that are package objects (a same-named method of a foreign object must not be touched)
+                    rtxt = ast.unparse(n.func.value)
+                    if not (rtxt in ('self', 'spawn', 'expecter', 'child', 'self.spawn', 'self.child', 'self.expecter', 'screen', 'self.searcher', 'searcher')
+                            or rtxt.startswith('super(')):
+                        return n
+                    name = n.func.attr
+                elif isinstance(n.func, ast.Name):
+                    name = n.func.id
+                else:
                     return n
-                sig = me.sigs.get(n.func.attr)
+                sig = me.sigs.get(name)
                 if not sig or len(n.args) > len(sig) or any(k.arg in sig[:len(n.args)] for k in n.keywords if k.arg):
                     return n
                 if not me.site(n, fn):
@@ -175,9 +184,15 @@ class Rewriter:
 
 
 def signatures(src):
-    """method name -> parameter names (without self) when every definition in the package agrees"""
+    """method / function name -> parameter names (without self) when every definition in the package agrees"""
     seen = {}
     for m, s in src.items():
+        for f in ast.parse(s).body:
+            if isinstance(f, (ast.FunctionDef, ast.AsyncFunctionDef)):
+                if f.args.vararg or f.args.posonlyargs:
+                    seen.setdefault(f.name, set()).add(None)
+                else:
+                    seen.setdefault(f.name, set()).add(tuple(a.arg for a in f.args.args))
         for c in ast.walk(ast.parse(s)):
             if isinstance(c, ast.ClassDef):
                 for f in c.body:
@@ -185,7 +200,8 @@ def signatures(src):
                         if f.args.vararg or f.args.posonlyargs:
                             seen.setdefault(f.name, set()).add(None)
                             continue
-                        ps = tuple(a.arg for a in f.args.args[1:])
+                        static = any(ast.unparse(d) == 'staticmethod' for d in f.decorator_list)
+                        ps = tuple(a.arg for a in f.args.args[0 if static else 1:])
                         seen.setdefault(f.name, set()).add(ps)
     return dict((k, list(v)[0]) for k, v in seen.items() if len(v) == 1 and None not in v and not k.startswith('__'))
 
